@@ -212,6 +212,7 @@ func (c *FCtx) protoChanRecvValue(e *Env, st *State, ch ast.Expr, pos token.Pos)
 		for _, f := range facts {
 			st.assume(f)
 		}
+		c.eventValue(e, st, ch, v, false)
 		// declared facts about values carried by the channel
 		if c.chanValueNonNil(e, st, ch) {
 			if t, ok := v.(*Term); ok && t.Sort == SInt {
@@ -285,7 +286,46 @@ func (c *FCtx) handoffOf(e *Env, st *State, ch ast.Expr) (string, *Term, types.T
 }
 
 // protoSendValue: sending `false` on a handoff channel releases the lock to the receiver.
+// eventValue: per-value counters for bool-carrying event channels (sentv/recvdv in specs).
+func (c *FCtx) eventValue(e *Env, st *State, ch ast.Expr, v Value, send bool) {
+	sx, ok := stripParens(ch).(*ast.SelectorExpr)
+	if !ok {
+		return
+	}
+	b, isB := v.(*Term)
+	if !isB || b.Sort != SBool {
+		return
+	}
+	sel := e.Info.Selections[sx]
+	if sel == nil || sel.Kind() != types.FieldVal {
+		return
+	}
+	ref, owner, fld, ok := e.fieldAddr(sx, st)
+	if !ok {
+		return
+	}
+	name := structKey(owner) + "." + fld.Name()
+	d := c.W.chanDecl(name)
+	if d == nil || d.Kind != "event" {
+		return
+	}
+	dir := "recv"
+	if send {
+		dir = "send"
+	}
+	for _, tv := range []struct {
+		suffix string
+		inc    *Term
+	}{{"T", Ite(b, IntC(1), IntC(0))}, {"F", Ite(b, IntC(0), IntC(1))}} {
+		key := "E$" + name + "$" + dir + tv.suffix
+		arr := c.heapGet(st, key, SArr(SInt, SInt))
+		c.heapSet(st, key, Store(arr, ref, IAdd(Select(arr, ref), tv.inc)))
+		c.eventsTouched[key] = name
+	}
+}
+
 func (c *FCtx) protoSendValue(e *Env, st *State, ch ast.Expr, v Value) {
+	c.eventValue(e, st, ch, v, true)
 	if lock, ref, owner, ok := c.handoffOf(e, st, ch); ok {
 		if b, isB := v.(*Term); isB && b.Sort == SBool {
 			key := c.lockKey(owner, lock, false)
@@ -345,6 +385,32 @@ func (c *FCtx) noteAssumed(s string) {
 
 func (c *FCtx) protoSpecCall(se *SpecEnv, name string, args []*SExpr) (TV, bool) {
 	switch name {
+	case "calls":
+		if len(args) != 1 || args[0].Kind != "str" {
+			se.fail("calls expects a string: calls(\"(*DB).writeJournal\")")
+		}
+		key := "G$calls." + args[0].Lit
+		arr := c.heapGet(se.Cur, key, SArr(SInt, SInt))
+		return TV{Select(arr, IntC(0)), nil}, true
+	case "sentv", "recvdv":
+		arg := args[0]
+		if arg.Kind != "sel" || len(args) != 2 || args[1].Kind != "bool" {
+			se.fail("%s expects obj.chanfield, true|false", name)
+		}
+		obj := se.eval(arg.Args[0])
+		key := "E$" + structKey(obj.T) + "." + arg.Name
+		if name == "sentv" {
+			key += "$send"
+		} else {
+			key += "$recv"
+		}
+		if args[1].Lit == "true" {
+			key += "T"
+		} else {
+			key += "F"
+		}
+		arr := c.heapGet(se.Cur, key, SArr(SInt, SInt))
+		return TV{Select(arr, obj.V.(*Term)), nil}, true
 	case "sent", "recvd":
 		// sent(db.writeAckC): event counter
 		arg := args[0]
@@ -366,7 +432,7 @@ func (c *FCtx) protoSpecCall(se *SpecEnv, name string, args []*SExpr) (TV, bool)
 
 // protoLoopInvariants: lock counters at the loop head equal their value at loop entry (auto invariant for the sweep).
 func (c *FCtx) protoLoopInvariants(e *Env, ordinal int) []loopInv {
-	if !c.LockSweep {
+	if !c.LockSweep && !c.AutoLocks {
 		return nil
 	}
 	return []loopInv{{label: "locks-unchanged", text: "lock counters at loop head equal those at loop entry",
@@ -386,7 +452,7 @@ func (c *FCtx) protoLoopInvariants(e *Env, ordinal int) []loopInv {
 
 // protoExit: balanced-lock obligations at function exits.
 func (c *FCtx) protoExit(e *Env, st *State, tag string, pos token.Pos) {
-	if !c.LockSweep {
+	if !c.LockSweep && !c.AutoLocks {
 		return
 	}
 	for key, name := range c.locksTouched {
@@ -432,7 +498,7 @@ func (c *FCtx) loopSpeaksOfLocks(ordinal int) bool {
 	if ordinal < 0 {
 		for _, l := range c.Contract.LabelLoops {
 			for _, inv := range l.Invs {
-				if mentionsLock(inv.Text) {
+				if strings.Contains(inv.Text, "held(") {
 					return true
 				}
 			}
@@ -441,7 +507,7 @@ func (c *FCtx) loopSpeaksOfLocks(ordinal int) bool {
 	}
 	if l := c.Contract.Loops[ordinal]; l != nil {
 		for _, inv := range l.Invs {
-			if mentionsLock(inv.Text) {
+			if strings.Contains(inv.Text, "held(") {
 				return true
 			}
 		}
@@ -509,6 +575,9 @@ func (c *FCtx) havocLoopHeap(e *Env, st *State, body *ast.BlockStmt, extra []ast
 func (c *FCtx) havocLocks(st *State, ws *Effects) {
 	for k := range ws.Locks {
 		st.heap[k] = c.freshVar(k, SArr(SInt, SInt))
+		if !strings.HasPrefix(k, "L$") {
+			continue // event and call counters: no automatic invariant
+		}
 		if _, ok := c.locksTouched[k]; !ok {
 			c.locksTouched[k] = strings.TrimPrefix(k, "L$")
 		}
